@@ -199,3 +199,22 @@ fn c01_sigs_complete_n2() {
 fn c01_sigs_complete_n3() {
     c01_sigs_complete(3)
 }
+
+// HARNESS props=C01 tier=thorough profile=gw_sig4 shape="N=4 proof entries; arbitrary oracle"
+#[kani::proof]
+#[kani::unwind(66)]
+fn c01_sigs_sound_n4() {
+    c01_sigs_sound(4)
+}
+// HARNESS props=C01 tier=thorough profile=gw_sig4 mode=strict shape="N=4, every subset mask"
+#[kani::proof]
+#[kani::unwind(66)]
+fn c01_sigs_complete_n4() {
+    c01_sigs_complete(4)
+}
+// HARNESS props=C03 tier=thorough profile=gw_sig4 mode=strict shape="N=4"
+#[kani::proof]
+#[kani::unwind(66)]
+fn c03_validate_signers_n4() {
+    c03_validate_signers(4)
+}
